@@ -52,6 +52,15 @@ def extra(c, rng, tier, results):
                 what += " — an earlier execution of the run was abandoned while a task was suspended in the middle of a panic: the OS thread's panic count was never reset"
             bad.append((what, {"kind": "program", "program": multi["progs"][n], "replay_program": rp["progs"][nm]},
                         "C14:panic-count-leak" if leak else "C14:iteration-differs-from-standalone"))
+    # the model starts every execution in a fresh world, so the executions that follow an abandoned panic (F19, reported
+    # above with its own signature) necessarily differ from it; the correspondence verdict is about all the others
+    leaky = set()
+    for n in multi["names"]:
+        all_ex = executions(multi["impl"].get(n, []))
+        if any(any(l == "P panic" for l in p["lines"]) and not (p["end"] or "").startswith("E fail") for p in all_ex[:-1]):
+            leaky.add(n)
+    multi["diffs"] = [d for d in multi["diffs"] if d[0] not in leaky]
+    rp["diffs"] = [d for d in rp["diffs"] if meta.get(d[0], (None, None))[1] not in leaky]
     return res, bad
 
 
